@@ -92,6 +92,8 @@ def register(R):
              "new task's mark_running() inside start_soon()", f"pre({cs}) == {PENDING}", "C16 C17")]}},
         tags="C16",
     )
+    # "for UDP later datagrams from that client start a fresh handler" (C17) is this function's job as well
+    R.group("C17", "AsyncDatagramServer.__on_client_coroutine_task_done")
     register_handler(R)
 
 
